@@ -22,6 +22,7 @@ fn main() {
         Some("c11-shard") => c11::shard(&a[2..]),
         Some("parse1") => c11::parse1(&a[2..]),
         Some("c12") => c12::run(&a[2..]),
+        Some("describe") => c12::describe_cmd(&a[2..]),
         Some("c20") => c20::run(&a[2..]),
         Some("c04-bfs") => c04::run(&a[2..]),
         Some("c04-pairs") => c03::run("c04", &a[2..]),
